@@ -12,6 +12,7 @@ pub fn lanes() -> Vec<Lane> {
         Lane { name: "gen", count: |c| if c.thorough() { 2_000_000 } else { 300_000 }, run: gen_lane },
         Lane { name: "built", count: |c| if c.thorough() { 400_000 } else { 60_000 }, run: built_lane },
         Lane { name: "long-numbers", count: |_| LONG.len() as u64, run: long_numbers_lane },
+        Lane { name: "control", count: |c| if c.thorough() { 300_000 } else { 40_000 }, run: control_lane },
     ]
 }
 
@@ -39,6 +40,53 @@ fn long_numbers_lane(ctx: &mut Ctx, idx: u64) {
     }
     ctx.distinct_exact += 1;
     ctx.sample(|| json!({"input": input, "expected": want}));
+}
+
+/// The same normalisation reached through `Control::wrap_and_sort` on a relation-valued field of a control file
+/// (folded over several lines, line breaks also inside [..] and <..>): the field must come out as the normal form
+/// of its value.
+fn control_lane(ctx: &mut Ctx, idx: u64) {
+    use debian_control::lossless::Control;
+    let mut r = ctx.rng();
+    let o = ROpts { substvars: idx % 3 == 0, ws_level: 1 + (idx % 2) as u8, inner_newlines: true, ..ROpts::default() };
+    let g = relgen::gen_field(&mut r, &o);
+    let value = g.text.trim().to_string();
+    if value.is_empty() || value.contains("\n\n") {
+        ctx.count("skipped:empty-or-blank-line");
+        return;
+    }
+    let (field, head) = [("Build-Depends", "Source: x\n"), ("Depends", "Source: x\n\nPackage: y\n"), ("Build-Depends-Indep", "Source: x\n"), ("Recommends", "Source: x\n\nPackage: y\n")][(idx % 4) as usize];
+    // continuation lines are indented; a line break in the value becomes a folded line
+    let folded = value.replace('\n', "\n ").replace("\n \n", "\n");
+    let text = format!("{}{}: {}\n", head, field, folded);
+    let feat = main_feature(&g.features);
+    let res = guard(text.len() * 4 + 1024, || {
+        let mut c = Control::from_str(&text).map_err(|e| e.to_string())?;
+        let before = c.as_deb822().paragraphs().last().and_then(|p| p.get(field)).unwrap_or_default();
+        let (rel, errs) = Relations::parse_relaxed(&before, true);
+        if !errs.is_empty() {
+            return Ok(None);
+        }
+        let want = rel.wrap_and_sort().to_string();
+        c.wrap_and_sort(deb822_lossless::Indentation::Spaces(1), false, None);
+        let after = c.as_deb822().paragraphs().last().and_then(|p| p.get(field)).unwrap_or_default();
+        Ok::<_, String>(Some((want, after)))
+    });
+    match res {
+        Err(f) => ctx.violation(&format!("{}|Control::wrap_and_sort|{}", f.class(), feat), json!({"input": clip(&text), "failure": f.json()})),
+        Ok(Err(e)) => ctx.violation(&format!("control-file-rejected|Control::from_str|{}", feat), json!({"input": clip(&text), "error": e})),
+        Ok(Ok(None)) => ctx.count("skipped:value-not-accepted"),
+        Ok(Ok(Some((want, after)))) => {
+            let norm = |s: &str| s.split('\n').map(|l| l.trim()).filter(|l| !l.is_empty()).collect::<Vec<_>>().join(" ");
+            if norm(&after) != norm(&want) {
+                ctx.violation(&format!("field-differs-from-normal-form|Control::wrap_and_sort|{}", feat), json!({"input": clip(&text), "field": field, "expected": want, "got": after}));
+                return;
+            }
+            ctx.count("held");
+            ctx.nontrivial(text.as_bytes());
+            ctx.sample(|| json!({"input": clip(&text), "field": field, "normal_form": want}));
+        }
+    }
 }
 
 fn canonical_rel(s: &Seen) -> String {
